@@ -59,10 +59,9 @@ def run(tier, seed):
                               post_terminal=2, keep_records=True, cover=8 if quick else 20)
     try:
         progs = [p for p in out['progs'] if p.bin]
-        reports, st, cases = mc.explore(progs, None, post=2, budget=8000 if quick else 200000, timeout=400 if quick else 2400)
+        reports, st, cases = mc.explore(progs, None, post=2, budget=8000 if quick else 200000, timeout=1600 if quick else 9000)
         for e in st['errors']:
-            if 'timeout' not in str(e):
-                chk.machinery_error('TLC(MachineMC): ' + str(e)[:1500])
+            chk.machinery_error('TLC(MachineMC): ' + str(e)[:1500])
         kinds = {}
         confirmed = 0
         unconfirmed = 0
